@@ -278,9 +278,21 @@ def _main(a, prop, tier, seed, t0):
             sys.path.insert(0, a.repo)
             drv = importlib.import_module(f"runtime.drivers.{drv_name}")
             bounded = drv.run(tier=tier, seed=seed, repo=a.repo)
-        except Exception:
+        except Exception as e:
             traceback.print_exc()
-            crashes.append(f"bounded driver {drv_name} crashed")
+            tb = traceback.extract_tb(e.__traceback__)
+            last = tb[-1] if tb else None
+            in_repo = last is not None and os.path.abspath(last.filename).startswith(os.path.join(os.path.abspath(a.repo), "skchange") + os.sep)
+            if in_repo and not tree_is_pristine(a.repo):
+                # a call the driver makes without a guard (it never fails on the unchanged tree, where this check passes) was stopped by an
+                # exception raised INSIDE the library: the changed code rejects / breaks on an input the unchanged code handles
+                violations.append({"obligation": "bounded:unguarded-call", "contract": "bounded", "target": f"{os.path.relpath(last.filename, a.repo)}::{last.name}",
+                                   "what": f"bounded driver {drv_name} was stopped by {type(e).__name__}: {str(e)[:200]} raised in "
+                                           f"{os.path.relpath(last.filename, a.repo)}:{last.lineno} ({last.name}) by a call that succeeds on the unchanged tree",
+                                   "input": None, "replayed": True, "no_input": True, "key": f"unguarded:{type(e).__name__}:{last.name}",
+                                   "model": "".join(traceback.format_exception(type(e), e, e.__traceback__))[-3000:]})
+            else:
+                crashes.append(f"bounded driver {drv_name} crashed")
             bounded = None
         if bounded:
             for v in bounded.get("violations", []):
@@ -391,7 +403,7 @@ def _main(a, prop, tier, seed, t0):
                 json.dump({"property": prop, "obligation": v["obligation"], "contract": v["contract"], "target": v["target"],
                            "what": v["what"], "input": v.get("input"), "solver_output": v.get("model", ""), "key": v.get("key"),
                            "replayed": bool(v.get("replayed"))}, fh, indent=1, default=str)
-            tail = "" if v.get("replayed") else " no-failing-input-found"
+            tail = "" if (v.get("replayed") and not v.get("no_input")) else " no-failing-input-found"
             print(f"  violated: {v['what'][:300]}")
             print(f"VIOLATION property={prop} replay={path}{tail}")
         return 1
